@@ -58,3 +58,8 @@ Proof. intros [[] | | | | | | | | | | | | | | | | | |]; intros; reflexivity. Qed
    definitions dict passed in), which is what the model [to_schema] is *)
 Lemma src_stateless : schema_module_state = [].
 Proof. reflexivity. Qed.
+
+(* the export and the serializer both read the nested mapper of an inline structure under the field's ATTRIBUTE name *)
+Lemma src_submapper_lookup :
+  schema_submapper_lookup = ByAttrName /\ serializer_submapper_lookup = ByAttrName.
+Proof. split; reflexivity. Qed.
